@@ -27,6 +27,17 @@ CLAIMED = {
          "length 4 quick / 5 thorough, with duplicates and stars); set() membership modelled by == (hash agreement is C12); "
          "type checks of the arguments are vacuous in the typed model."),
    design="§7 C07", technique="Lean 4 proof (sorted-permutation uniqueness, rule equivalence) + correspondence"),
+ "C09": dict(
+   level="proof",
+   text=("Lean 4 theorems over a model of VersionRange.invert / VersionConstraint.invert: the INVERTED_COMPARATORS tables "
+         "regenerated from /repo on every run are proved (by decide) to map every comparator to its logical complement; for every "
+         "non-empty well-formed version-sorted range without vacuous constraints (any length, any lawful scheme) the inverse is "
+         "well-formed, contains a version exactly when the original does not (on the spec and on the model of the membership test), "
+         "and inverting again returns the original; a single constraint's inverse flips membership; '*' has no inverse."),
+   note=("Trusted: Lean kernel; standard axioms; specs denote/WFSorted/NonVacuous; translator for the two tables; correspondence "
+         "exhaustive over comparator patterns up to length 4 quick / 5 thorough on every scheme. The empty range is excluded "
+         "(a theorem shows its inverse is empty again)."),
+   design="§7 C09", technique="Lean 4 proof (first-cut-above characterisation of interval unions) + decide over regenerated tables + correspondence"),
 }
 
 NOT_YET = "machinery for this property is not built yet at this commit (planned: Lean 4 proof + correspondence, see DESIGN.md §7)"
